@@ -222,7 +222,7 @@ Deliver(bs, v) ==
        ELSE [bs EXCEPT !.vs[n].m = Append(@, <<top.key, v>>), !.cur = NoVal]
 
 FinishNumber(bs) ==
-  LET v == [t |-> "num", a |-> bs.cur.a, z |-> bs.pos, lit |-> bs.cur.lit]
+  LET v == [t |-> "num", a |-> bs.cur.a, z |-> bs.pos, lit |-> bs.cur.lit, k |-> Classify(bs.cur.lit)]
       b1 == Deliver(bs, v)
   IN [b1 EXCEPT !.inf = bs.inf \/ ~LitIsFinite(bs.cur.lit),
                 !.bigexp = bs.bigexp \/ Len(Scan(bs.cur.lit).ed) >= 3]
